@@ -96,6 +96,28 @@ func prodErrTok(err error) string {
 
 type prodHooks struct {
 	log *sim.Log
+	mut int // 1: the buffered-hook adds a header to every second record, 2: it halves the value (interceptors may do both)
+}
+
+func recSize(r *kgo.Record) int {
+	n := len(r.Key) + len(r.Value)
+	for _, h := range r.Headers {
+		n += len(h.Key) + len(h.Value)
+	}
+	return n
+}
+
+// mutate is what the buffered-hook does to a record ("interceptors that modify a record's key / value / headers before
+// being produced"); the size the client accounts for the record is its size after the hook.
+func (h *prodHooks) mutate(r *kgo.Record) {
+	switch h.mut {
+	case 1:
+		if len(r.Key) > 0 && r.Key[len(r.Key)-1]%2 == 0 {
+			r.Headers = append(r.Headers, kgo.RecordHeader{Key: "trace", Value: make([]byte, 24)})
+		}
+	case 2:
+		r.Value = r.Value[:len(r.Value)/2]
+	}
 }
 
 func rid(r *kgo.Record) string {
@@ -104,7 +126,7 @@ func rid(r *kgo.Record) string {
 	}
 	return string(r.Key)
 }
-func (h *prodHooks) OnProduceRecordBuffered(r *kgo.Record) { h.log.Add("B:%s", rid(r)) }
+func (h *prodHooks) OnProduceRecordBuffered(r *kgo.Record) { h.mutate(r); h.log.Add("B:%s", rid(r)) }
 func (h *prodHooks) OnProduceRecordUnbuffered(r *kgo.Record, err error) {
 	h.log.Add("U:%s:%s", rid(r), prodErrTok(err))
 }
@@ -188,8 +210,7 @@ func runProd(t *testing.T, tk []string) string {
 	kgo.VerifSetEventSink(func(kind string, r *kgo.Record, a, b int64) {
 		switch kind {
 		case "admit":
-			sz := len(r.Key) + len(r.Value)
-			log.Add("A:%s:%d:%d:%d", rid(r), a, b, sz)
+			log.Add("A:%s:%d:%d:%d", rid(r), a, b, recSize(r))
 		case "block":
 			log.Add("K:%s", rid(r))
 		case "unblock":
@@ -210,10 +231,15 @@ func runProd(t *testing.T, tk []string) string {
 	})
 	defer kgo.VerifSetEventSink(nil)
 
+	hooks := &prodHooks{log: log}
+	if seed%5 == 1 || seed%5 == 2 {
+		hooks.mut = int(seed % 5)
+		hx.St.Inc(fmt.Sprintf("scen.prod.hook-mutates-record.%d", hooks.mut))
+	}
 	opts := []kgo.Opt{
 		kgo.SeedBrokers(cluster.ListenAddrs()...), kgo.Dialer(net.Stack.DialContext),
 		kgo.MaxBufferedRecords(maxrec), kgo.ProducerLinger(time.Duration(linger) * time.Millisecond),
-		kgo.RecordDeliveryTimeout(3 * time.Second), kgo.RequestRetries(4), kgo.WithHooks(&prodHooks{log}),
+		kgo.RecordDeliveryTimeout(3 * time.Second), kgo.RequestRetries(4), kgo.WithHooks(hooks),
 		kgo.UnknownTopicRetries(1), kgo.RetryBackoffFn(func(int) time.Duration { return 20 * time.Millisecond }),
 	}
 	if maxbytes > 0 {
@@ -267,7 +293,10 @@ func runProd(t *testing.T, tk []string) string {
 				promise := func(r *kgo.Record, err error) {
 					log.Add("R:%s:%s:%d", rid(r), prodErrTok(err), r.Offset)
 				}
-				sz := len(rec.Key) + len(rec.Value)
+				// the size the record will have once the buffered-hook has run
+				after := *rec
+				hooks.mutate(&after)
+				sz := recSize(&after)
 				// calls never begin after Close has begun (producing on a closed client is outside the properties)
 				gate.RLock()
 				if isClosed {
